@@ -29,7 +29,7 @@ def _load(prop):
     return importlib.import_module('vmc.props.' + prop.lower())
 
 
-def _limit_memory(gigabytes=16):
+def _limit_memory(gigabytes=8):
     '''Address-space ceiling per worker: a runaway allocation becomes a MemoryError in
     that worker instead of an out-of-memory kill somewhere in the machine.'''
     import resource
@@ -136,7 +136,7 @@ def main(argv=None):
         ctx = multiprocessing.get_context('fork')
         with concurrent.futures.ProcessPoolExecutor(min(args.workers, len(jobs)), mp_context=ctx,
                                                     initializer=_limit_memory,
-                                                    initargs=(getattr(mod, 'WORKER_MEM_GB', 16),)) as pool:
+                                                    initargs=(getattr(mod, 'WORKER_MEM_GB', 8),)) as pool:
             futs = [pool.submit(run_scenario, job) for job in jobs]
             for (k, fut) in enumerate(futs):
                 try:
@@ -145,7 +145,7 @@ def main(argv=None):
                     results[order[k]] = dict(name=jobs[k][1].get('name'), kind='error', wall_s=0.0,
                                              error='worker process lost: %r' % (err,))
     else:
-        _limit_memory(getattr(mod, 'WORKER_MEM_GB', 16))
+        _limit_memory(getattr(mod, 'WORKER_MEM_GB', 8))
         for (k, job) in enumerate(jobs):
             results[order[k]] = run_scenario(job)
 
